@@ -20,6 +20,9 @@ type simpleMidPool struct {
 	min       int32
 	max       int32
 	intervals []interval
+	// initialized tells a pool that was never used from one whose identifiers are all outstanding:
+	// both have an empty free list.
+	initialized bool
 }
 
 func newMIDPool(min, max int32) midPool {
@@ -32,11 +35,16 @@ func newMIDPool(min, max int32) midPool {
 func (m *simpleMidPool) Get() int32 {
 	m.mtx.Lock()
 	defer m.mtx.Unlock()
-	if len(m.intervals) == 0 {
+	if !m.initialized {
+		m.initialized = true
 		m.intervals = []interval{
 			{from: m.min, to: m.max},
 		}
 		return m.min
+	}
+	if len(m.intervals) == 0 {
+		// every identifier is outstanding
+		return m.min - 1
 	}
 	if m.intervals[0].from == m.max {
 		return -1
@@ -54,11 +62,23 @@ func (m *simpleMidPool) Put(mid int32) {
 	}
 	m.mtx.Lock()
 	defer m.mtx.Unlock()
+	if !m.initialized {
+		// nothing was handed out yet
+		return
+	}
+	if len(m.intervals) == 0 {
+		m.intervals = []interval{{from: mid - 1, to: mid}}
+		return
+	}
 
 	idx := sort.Search(len(m.intervals), func(i int) bool {
 		return m.intervals[i].from >= mid
 	})
 	if idx < len(m.intervals) && (m.intervals[idx].from < mid && m.intervals[idx].to >= mid) {
+		return
+	}
+	if idx > 0 && m.intervals[idx-1].from < mid && m.intervals[idx-1].to >= mid {
+		// already free: the interval that may contain mid is the one starting below it
 		return
 	}
 
